@@ -48,7 +48,7 @@ class IteV(Val):
 
 
 class State(object):
-    __slots__ = ('env', 'pc', 'heap', 'memo', 'trace', 'calls', 'ghostcount', 'entry', 'pending')
+    __slots__ = ('env', 'pc', 'heap', 'memo', 'trace', 'calls', 'ghostcount', 'entry', 'pending', 'loop_pre')
 
     def __init__(self):
         self.env = {}
@@ -253,6 +253,7 @@ class Engine(object):
         self.nfeas += 1
         s = z3.Solver()
         s.set('rlimit', self.feas_rlimit)
+        s.set('timeout', 3000)      # backstop (non-linear real queries ignore rlimit); unknown counts as feasible
         fs = list(st.pc) + [c]
         if self.axioms_fn is not None:
             fs = fs + self.axioms_fn(fs, light=True)
@@ -2319,6 +2320,7 @@ class PathExec(object):
         # arbitrary iteration: havoc what the body assigns
         self.havoc_names(names, st)
         if hasattr(eng, 'on_loop_havoc'):
+            st.loop_pre = pre                      # values of the assigned names before the loop (for engine hooks)
             eng.on_loop_havoc(self, s, st, frame)
         if inv is not None:
             p = Pure(eng, st, inv_env(st), ct_globals(frame.contract), True, TRUE, s.lineno)
